@@ -11,7 +11,6 @@ from ..jws import (
 )
 from ..util import (
     to_bytes,
-    to_str,
     json_b64encode,
     urlsafe_b64encode,
     urlsafe_b64decode,
@@ -91,11 +90,13 @@ def deserialize_compact(
 # the application MUST ensure that the payload contains only the URL-safe
 # characters 'a'-'z', 'A'-'Z', '0'-'9', dash ('-'), underscore ('_'),
 # and tilde ('~')
-_re_urlsafe = re.compile("^[a-zA-Z0-9-_~]+$")
+_re_urlsafe = re.compile(rb"[a-zA-Z0-9\-_~]+")
 
 
 def __is_urlsafe_characters(s: bytes | str) -> bool:
-    return bool(_re_urlsafe.match(to_str(s)))
+    # decided on the octets: "$" would also match before a trailing newline,
+    # and a payload that is not UTF-8 is simply not URL-safe
+    return bool(_re_urlsafe.fullmatch(to_bytes(s)))
 
 
 def _extract_compact(value: bytes, payload: t.Optional[bytes | str] = None) -> t.Any:
